@@ -1834,6 +1834,7 @@ func (ex *Exec) initialState() *State {
 		}
 	}
 	if ex.con != nil {
+		ex.asyncOwn(s)
 		env := ex.rootEnv(s, nil)
 		for _, r := range ex.con.Requires {
 			s.assume(ex.evalBool(env, r.Expr))
@@ -1843,6 +1844,7 @@ func (ex *Exec) initialState() *State {
 		}
 		// vacuity guard: the precondition must be satisfiable
 		ex.cover(s, ex.key+"#cover.pre", ex.con.AllTags(), ex.fn.Pos())
+		ex.asyncInit(s)
 	}
 	return s
 }
